@@ -7,7 +7,9 @@
   `--cpu` value and every table size.  The modelled operator set is: WHERE, select-list projection,
   CROSS / INNER / LEFT / RIGHT / FULL joins, USING / NATURAL merge, recursive CTE with UNION ALL.
   LATERAL: per-left-row application; its empty-left-table header defect (F15) is stated, witnessed and
-  bounded by `lateral_spec_partial` below, and checked on the implementation by a direct law.
+  bounded by `lateral_spec_partial` below, and checked on the implementation by a direct law.  The LATERAL branch
+  in the shape of the code (worker chunks, slots, header from record 0, the join kinds and spellings) and its
+  specification theorems are in Props/C03Lateral.lean (Model/Lateral.lean).
 -/
 import Csvq.Lemmas.Rel
 import Csvq.Props.C06
